@@ -14,6 +14,9 @@ SMALL_PROGRAMS = [
     "q(X) :- p(X). p(X) :- q(X).", "p(X\\3) :- q(X).", "p(-X) :- q(X).", "p(#inf). p(#sup).", "s(X,a,Y) :- t(Y,X).", "p(V1) :- q(V1), not q(V2), r(V2).",
     "p(Z) :- q(Z), q(Z1), Z != Z1.", "p(I) :- q(I), I = J, q(J).", "composite(I*J) :- I = 2..n, J = 2..n. prime(I) :- I = 2..n, not composite(I).",
     "in_cover(1..n). :- in_cover(I), in_cover(J), I != J, s(X,I), s(X,J).", "p(N0) :- q(N0). p(1..N1) :- q(N1).",
+    # a theory of 12 / 24 formulas: anything that processes the formulas of a theory concurrently shows here
+    " ".join(f"p{i}(X+{i}) :- q(X), X > {i}, not r{i}(X)." for i in range(1, 13)),
+    " ".join(f"{{s{i}(X)}} :- q(X), X != {i}. t{i} :- s{i}(X), not not q(X+{i})." for i in range(1, 13)),
 ]
 
 def main():
@@ -26,7 +29,7 @@ def main():
     run.rule = (f"determinism half: every command (parse x4 kinds, translate x5, simplify 3 portfolios x 3 strategies, analyze x2, verify --no-proof-search --save-problems for every line of the examples' .tests files) "
                 f"on every corpus input (all example files + {len(SMALL_PROGRAMS)} small programs and their tau-star/gamma theories) is executed {R} times in fresh processes ({len(seeds)} with harness-chosen hash seeds, the rest free-running) and compared byte-wise (stdout, exit status, every saved problem file)")
     if shim:
-        run.assumptions.append(f"hash-map iteration order: the RandomState keys are owned by the harness (getrandom interposed through LD_PRELOAD, validated below on a probe); the seed list {seeds} is enumerated, not all 2^128 keys: an order dependence that shows for none of these seeds on none of the corpus inputs is missed. One additional free-running process per command (own keys, ASLR on) covers address-dependent orders as a sample. The input dimension is exhaustive over the corpus. Thread timing does not exist before the prover stage (C10 covers that stage)")
+        run.assumptions.append(f"hash-map iteration order: the RandomState keys are owned by the harness (getrandom interposed through LD_PRELOAD, validated below on a probe); the seed list {seeds} is enumerated, not all 2^128 keys: an order dependence that shows for none of these seeds on none of the corpus inputs is missed. One additional free-running process per command (own keys, ASLR on) covers address-dependent orders as a sample. The input dimension is exhaustive over the corpus. The corpus contains theories of 12 and 24 formulas so that any concurrent processing of a theory's formulas before the prover stage would show; thread timing itself is not controlled by the harness, so in that dimension repeated runs are a sample (C10 controls the prover stage)")
     else:
         run.assumptions.append(f"no C compiler for the getrandom shim: the hash-seed dimension is covered by {R} fresh processes per input, i.e. sampled")
     base = scratch("c18_")
@@ -36,7 +39,7 @@ def main():
         for i, p in enumerate(SMALL_PROGRAMS):
             path = f"{base}/small_{i}.lp"; open(path, "w").write(p + "\n"); progs.append(path)
         if tier == "quick":
-            progs = progs[::3] + progs[-8:]
+            progs = progs[::3] + progs[-8:]   # the last eight include the two large programs
         theories = []
         for i, p in enumerate(progs):
             for w in ("tau-star", "mu"):
